@@ -111,6 +111,21 @@ for _pid, _txt in RUNNER_TEXT.items():
     CHECKS[_pid] = dict(engine="runner-trace", technique=RUNNER_TECH, level="model_checking",
                         text=_txt, design_ref=f"DESIGN.md §3 {_pid}", note=RUNNER_NOTE)
 
+CHECKS["C20"] = dict(
+    engine="runner-trace",
+    technique="Runner.tla extended with the tracing forwarder (log channel flushed at every executor poll), model-checked "
+              "by TLC against the C20 rules of the monitor RunnerObs.tla; real runs with Cucumber::init_tracing (one "
+              "process each, gate-controlled completion order) validated by TLC against the same monitor (Trace_Runner.tla)",
+    level="model_checking",
+    text="every log emitted by the test double's steps and hooks carries (scenario, attempt, callback, index); the "
+         "monitor requires each to be delivered exactly once, as a Log event of that attempt, after the Started event of "
+         "the emitting step/hook and before its result, none pending at run-Finished; checked on all interleavings of "
+         "two concurrent scenarios in the model and on driven real runs with up to several scenarios, retries and "
+         "0-5 logs per callback.  After-hook logs violate the position rule by design of the runner (known finding F7).",
+    design_ref="DESIGN.md §3 C20",
+    note="model abstracts the collector to 'flushed at every poll'; global subscriber => one run per process",
+)
+
 NOT_YET = "check not built yet in this round (planned: see DESIGN.md §3)"
 
 
